@@ -216,8 +216,21 @@ func genP06(g *Gen, p *Program) {
 			tp := TaskProg{Priv: g.privSpec()}
 			n := g.R.Range(1, 6)
 			for i := 0; i < n; i++ {
-				k := []string{"TextRT", "String", "MarshalText", "Scribble", "FormatFn", "AppendM"}[g.R.Pick([]int{6, 2, 2, 1, 1, 1})]
+				k := []string{"TextRT", "String", "MarshalText", "Scribble", "FormatFn", "AppendM", "FormatState", "Sprintf"}[g.R.Pick([]int{6, 2, 2, 1, 1, 1, 2, 1})]
 				op := g.fill(k, p)
+				switch k {
+				case "FormatState":
+					// the %v path through a caller-supplied fmt.State, which in
+					// half of the calls refuses bytes, fails or panics in Write:
+					// the calls that follow must not see anything of it
+					op.S = []string{"v"}
+					op.I = nil
+					if g.R.P(1, 2) {
+						op.I = []int64{0, 0, int64(g.R.Range(1, 3)), int64(g.R.N(12))}
+					}
+				case "Sprintf":
+					op.S = []string{"v"}
+				}
 				if k == "TextRT" && g.R.P(1, 4) {
 					// the positional form prints every digit: long numerals the
 					// other forms never produce
@@ -317,9 +330,37 @@ func (g *Gen) tieDec() string {
 
 func genP13(g *Gen, p *Program) {
 	g.sharedPool(p, 200)
-	ne := g.R.Range(1, 2)
+	// a few number tokens recur within the run, also across epochs, i.e.
+	// across legal changes of DefaultRoundingMode; most of them have more than
+	// 34 significant digits, so that their value depends on the mode
+	for i := g.R.Range(1, 3); i > 0; i-- {
+		var b strings.Builder
+		if g.R.P(1, 3) {
+			b.WriteByte('-')
+		}
+		switch g.R.N(4) {
+		case 0: // a tie at the 34th digit
+			b.WriteString(g.digits(34) + "5" + strings.Repeat("0", g.R.N(4)))
+		case 1: // an integer part and a fraction
+			b.WriteString(g.digits(g.R.Range(1, 30)) + "." + g.litDigits(g.R.Range(35, 45), false))
+		case 2: // subnormal window
+			b.WriteString(fmt.Sprintf("%de-%d", g.R.Range(1, 99999), 6176+g.R.Range(0, 6)))
+		default:
+			b.WriteString(g.digits(g.R.Range(35, 44)))
+		}
+		if g.R.P(1, 3) {
+			b.WriteString(fmt.Sprintf("e%d", g.R.Range(-40, 40)))
+		}
+		g.jlits = append(g.jlits, b.String())
+	}
+	ne := g.R.Range(1, 3)
+	last := uint8(0)
 	for e := 0; e < ne; e++ {
 		ep := Epoch{Mode: g.epochMode(3)}
+		if e > 0 && ep.Mode == last && g.R.P(1, 2) {
+			ep.Mode = uint8((int(last) + g.R.Range(1, 5)) % 6)
+		}
+		last = ep.Mode
 		kinds := []string{"MarshalJSON", "UnmarshalJSON", "JSONRT", "JSONDoc", "Scribble"}
 		weights := []int{3, 5, 3, 3, 1}
 		ep.Tasks = g.tasksOf(p, g.R.Range(1, 2), 7, kinds, weights)
